@@ -153,8 +153,54 @@ def scan_verbose():
                     for sub in ast.walk(a):
                         if isinstance(sub, (ast.Call, ast.NamedExpr, ast.Await, ast.Yield)):
                             bad.append(fn.name + ":arg")
+    # the format string of every debug_print call is a literal (the arguments are formatted by '%' inside debug_print)
+    nonlit = []
+    for fn in ast.walk(tree):
+        if not isinstance(fn, ast.FunctionDef):
+            continue
+        for node in ast.walk(fn):
+            if isinstance(node, ast.Call) and ast.unparse(node.func) == "self.debug_print":
+                if not node.args or not (isinstance(node.args[0], ast.Constant) and isinstance(node.args[0].value, str)):
+                    nonlit.append(fn.name)
+                else:
+                    # number of % directives == number of arguments
+                    fmt = node.args[0].value
+                    if fmt.count("%") - 2 * fmt.count("%%") != len(node.args) - 1:
+                        nonlit.append(fn.name + ":arity")
+    # convert_void_to_zero_params is read exactly once, in _parse_parameters, after the parameter loop
+    reads = []
+    for fn in ast.walk(tree):
+        if not isinstance(fn, ast.FunctionDef):
+            continue
+        for node in ast.walk(fn):
+            if isinstance(node, ast.Attribute) and node.attr == "convert_void_to_zero_params":
+                reads.append(fn.name)
+    void_ok = reads == ["_parse_parameters"]
+    # every parameter list that reaches a dataclass comes from _parse_parameters
+    ctor_bad = []
+    for fn in ast.walk(tree):
+        if not isinstance(fn, ast.FunctionDef):
+            continue
+        for node in ast.walk(fn):
+            if isinstance(node, ast.Call) and isinstance(node.func, ast.Name) and node.func.id in ("FunctionType", "Function", "Method", "DeductionGuide"):
+                arg = None
+                if node.func.id == "DeductionGuide":
+                    arg = [k.value for k in node.keywords if k.arg == "parameters"]
+                    arg = arg[0] if arg else None
+                elif len(node.args) >= (3 if node.func.id in ("Function", "Method") else 2):
+                    arg = node.args[2 if node.func.id in ("Function", "Method") else 1]
+                if arg is None or ast.unparse(arg) not in ("params", "fn_params", "fn.parameters"):
+                    ctor_bad.append("%s:%s" % (fn.name, node.func.id))
+    src = inspect.getsource(P.CxxParser._parse_parameters)
+    conv = ("if self.options.convert_void_to_zero_params and len(params) == 1:\n            p0_type = params[0].type\n"
+            "            if (\n                isinstance(p0_type, Type)\n                and len(p0_type.typename.segments) == 1\n"
+            "                and getattr(p0_type.typename.segments[0], \"name\", None) == \"void\"\n            ):\n                params = []")
+    void_ok = void_ok and conv in src
     return {"verbose_only_in_init_and_parse": (ok, sorted(set(sites))),
-            "debug_print_args_pure": (not bad, bad)}
+            "debug_print_args_pure": (not bad, bad),
+            "debug_print_fmt_is_literal": (not nonlit, nonlit),
+            "void_option_read_once_in_parse_parameters": (void_ok, reads),
+            "param_lists_come_from_parse_parameters": (not ctor_bad, ctor_bad)}
 
 
 def scan_entry():
